@@ -348,7 +348,10 @@ def run_rows_dense(ad, items, extra_pad, ctx):
         tr = ad.terminal(env, td[torch.tensor(fresh)].clone(), [rows[k].a for k in fresh], [rows[k].inst for k in fresh])
         for k, v in zip(fresh, tr):
             rows[k].reward, rows[k].state = v, "pad"
-    return [row.record("done" if row.state == "pad" else "cap") for row in rows]
+    out = [row.record("done" if row.state == "pad" else "cap") for row in rows]
+    for k, rec in enumerate(out):   # what is needed to run this very batch again (judge(): driver self-check)
+        rec["_again"] = {"items": items, "extra_pad": extra_pad, "row": k, "torchrl": ad.torchrl}
+    return out
 
 
 def batch_records(ad, eps, tier, seed):
@@ -464,7 +467,7 @@ def validate(ad, records, tag):
         lo, hi = bounds[j], bounds[j + 1]
         wd, root = tlc.prepare("densetrace_%s_%d" % (tag, j), template="DenseTrace", env_module=ad.module)
         f = os.path.join(wd, "traces.ndjson")
-        tlc.dump_ndjson(f, [{k_: v for k_, v in r.items() if k_ != "ctx"} for r in records[lo:hi]])
+        tlc.dump_ndjson(f, [{k_: v for k_, v in r.items() if k_ not in ("ctx", "_again")} for r in records[lo:hi]])
         tlc.write_cfg(wd, root, invariants=TRACE_INV)
         r = tlc.run(wd, root, workers=1, env={"TRACE_FILE": f}, heap="3g")
         if r.violated:
@@ -631,10 +634,32 @@ def judge(ad, fam, eps, recs, val_future, solo_future, seed, viols, cov, add, ou
         e = recs[k]
         key = (e["inst"]["id"], tuple(e["a"]))
         if any(mon == "driver" for mon, _ in fl):
-            # self-check of the HARNESS (the recorded action is not in the mask recorded one step earlier): the record says
-            # nothing about rl4co; it is dropped and counted (seen once, in one thorough run, for one batch composition)
+            # the recorded action is not in the mask recorded one step earlier.  The sequence was mask-confined when the row was
+            # expanded alone (bfs), so for a batch row this says: next to these batch-mates the row was offered a different
+            # mask.  The very same batch is executed again: if the row is again refused its action, that is a reproducible
+            # dependence of the mask on the batch-mates (C04, witness = the batch); if not, the first execution cannot be
+            # reproduced and says nothing certain about rl4co: the record is dropped and counted.
+            step = min(st for mon, st in fl if mon == "driver")
+            again = e.get("_again")
+            rep = None
+            if again is not None:
+                mode, ad.torchrl = ad.torchrl, again["torchrl"]
+                try:
+                    r2 = run_rows_dense(ad, again["items"], again["extra_pad"], "again")[again["row"]]
+                    seq2 = [m for m in r2["mask"]]
+                    rep = any(t < len(seq2) and a not in seq2[t] for t, a in enumerate(r2["a"]))
+                except Exception as ex:     # noqa: BLE001
+                    rep = None
+                    print("NOTE dense-reward harness: re-execution raised %s" % type(ex).__name__)
+                ad.torchrl = mode
+            if rep:
+                add("C04", "batch-mask", e["inst"], e["a"], "step %d ctx=%s: the action is not offered next to the batch-mates %s "
+                    "(offered when the row runs alone); reproduced by a second execution of the same batch" % (
+                        step, e["ctx"], [(o[0]["id"], list(o[1])) for o in again["items"]]))
+                continue
             counts["dropped_by_driver_self_check"] = counts.get("dropped_by_driver_self_check", 0) + 1
-            print("NOTE dense-reward harness: record %d (%s, ctx %s) dropped by the driver self-check" % (k, env_name, e["ctx"]))
+            print("NOTE dense-reward harness: record %d (%s, ctx %s) dropped by the driver self-check (not reproduced by a second "
+                  "execution of the same batch)" % (k, env_name, e["ctx"]))
             continue
         for mon, step in fl:
             detail = "step %d ctx=%s rew=%s pad.rew=%s terminal=%s end=%s ob=%s [units 1/%d]" % (
@@ -699,7 +724,7 @@ def judge(ad, fam, eps, recs, val_future, solo_future, seed, viols, cov, add, ou
         "real_episodes": len(eps), "real_pad_steps": sum(len(e["pad"]["a"]) for e in recs), "batch_rows": sum(1 for e in recs if e["ctx"].startswith(("solo", "batch"))),
         "stepwise_ppo_rows": sum(1 for e in recs if e["ctx"].startswith("ppo")),
         "traces_validated": len(recs), "trace_states": tstates, "replayed_behaviours": nrep,
-        "violation_counts": {"%s/%s" % k: v for k, v in counts.items()}, "drift": drift[:10],
+        "violation_counts": {("%s/%s" % k if isinstance(k, tuple) else str(k)): v for k, v in counts.items()}, "drift": drift[:10],
         "wall_s": {"bfs": round(t_bfs, 1), "real": round(t_real, 1), "trace_tlc": round(t_val, 1), "solo_tlc": round(r.wall, 1),
                    "replay": round(t_rep, 1)},
         "sample": None if not eps else {"inst": eps[0]["inst"]["id"], "a": eps[0]["a"], "rew": eps[0]["rew"],
